@@ -17,12 +17,13 @@ def run(ctx):
     if thorough:
         for k in range(5):
             ctx.seed += 1000
-            ctx.corr(hx, ["hist", "--nev", "600", "--npr", "300", "--nno", "400", "--conc", "60", "--barrier", "8000", "--barrier-ms", "8000"], cases_name="cases%d.v" % k)
+            ctx.corr(hx, ["hist", "--nev", "600", "--npr", "300", "--nno", "400", "--nrl", "80", "--conc", "60", "--barrier", "8000", "--barrier-ms", "8000", "--fresh", "30000", "--fresh-ms", "6000"], cases_name="cases%d.v" % k)
         ctx.seed -= 5000
     else:
-        ctx.corr(hx, ["hist", "--nev", "300", "--npr", "150", "--nno", "200", "--conc", "30", "--barrier", "3000", "--barrier-ms", "4000"])
+        ctx.corr(hx, ["hist", "--nev", "300", "--npr", "150", "--nno", "200", "--nrl", "40", "--conc", "30", "--barrier", "3000", "--barrier-ms", "4000", "--fresh", "12000", "--fresh-ms", "3000"])
     ctx.assumptions += [
         "WithMaxTriggerCount: the model's count test is ONE step that increments the counter and compares the new value with the limit (Model.start_trigger for an event, step_frame on FWalk _ _ _ (PAt n) for a hook), mirroring the single `triggerCount.Add(1) > maxTriggerCount` of options.go; C15_max_trigger_count_event / _hook / _quiescent are proved through invariants (EInv, HInv) preserved by exactly that step and do not hold for a load followed by a separate add. The sequential lockstep cannot observe whether the code's test-and-increment is one atomic operation: that is tested on the code by the barrier rounds (k = 2..4 persistent workers released into Trigger within nanoseconds of each other on fresh events/hooks with limits 1..3 at event level, hook level, both, and through LinkTo; exact-count oracle = min(n, #triggers)); this is a high-probability test, it needs >= 2 processors (skipped and counted in hist as barrier:skipped-single-processor otherwise) and is cut at a wall-clock cap on an oversubscribed machine (barrier:stopped-at-wall-limit)",
+        "first use of a fresh object: the model has no set-up step - Model.attach (event.Hook, also the Hook inside linkTo) on an event without hooks is the same single atomic step as any other attach, Model.start_trigger / the walk on an empty event are the ordinary steps, ModelPromise's PAOnTrigger / PATrigger and ModelNotifier's NAListener / NANotify are one critical section each from the initial state on; the theorems quantify over all interleavings of these steps starting at the empty state, so they cover concurrent FIRST operations only as far as the code really has nothing that is initialised unsynchronised on first use (newEvent / NewEvent1 / valuenotifier.New allocate everything). Every lockstep and free-running family prepares its objects from one goroutine, so this is tested on the code by the fresh-object rounds (harness fresh.go): per round a brand-new event / promise.Event1 / promise.Event / Notifier and k = 2..4 workers released through the spin barrier into its first operations (all combinations of Hook, Trigger, LinkTo towards and from the fresh event; OnTrigger x Trigger; Listener x Notify), then a quiescent part judged with the property's predicate (every hook whose attaching call had returned before a Trigger began - logical clock for the racing triggers, all hooks for the quiescent one - is invoked exactly once; an unhooked one no more; exactly one current link target; promise callbacks exactly once with the winner's argument; Wait = success never without a Notify after the listener's creation); a high-probability test under the same limits as the barrier rounds (>= 2 processors, wall-clock cap: fresh:skipped-single-processor / fresh:stopped-at-wall-limit in hist)",
         "lockstep histories are sequential with re-entrant callbacks (operations performed inside a callback are steps of other threads for the model); real parallelism only in the free-running runs judged by the Go oracle (exact invocation counts)",
         "valuenotifier lockstep: Wait is held at the verif yield point (hook commit 1d19fe5) and released only when a select case is ready; interleavings inside Deregister are covered by the theorems, not by the correspondence",
         "pre-trigger functions (WithPreTriggerFunc) and the generated EventN arities other than Event1 are not modelled (same template code)",
